@@ -308,6 +308,11 @@ func (s *seqRun) find(op Op, idx int) {
 			// new is known to be recorded and the previous entry is invalid: only an error
 			// is acceptable (after a malformed listing a lenient reader may have recorded
 			// the well-formed line: current data is accepted there)
+			// whether the invalid entry is kept or dropped after the failed re-listing is not
+			// observable through the API: the model no longer knows
+			if e := s.entries[path]; e != nil {
+				e.unsure = true
+			}
 			if err == nil {
 				if ll.Lenient && content == truth {
 					return
